@@ -32,6 +32,7 @@ type c09Case struct {
 	Will      bool         `json:"will,omitempty"`
 	User      bool         `json:"user,omitempty"`
 	IDKind    int          `json:"idKind,omitempty"` // 0 "verif-c09", 1 empty, 2 300 bytes, 3 non-ASCII
+	PingS     int          `json:"pingS,omitempty"`  // WithPingInterval in seconds (never due within a case); CONNECT must not change
 }
 
 func c09ClientID(kind int) string {
@@ -92,6 +93,8 @@ func c09Run(tb rapid.TB, c c09Case) {
 	opts := []ReconnectOption{WithRetryClient(rc), WithReconnectWait(base, max), WithTimeout(25 * time.Millisecond)}
 	if pingNeeded {
 		opts = append(opts, WithPingInterval(3*time.Millisecond))
+	} else if c.PingS > 0 {
+		opts = append(opts, WithPingInterval(time.Duration(c.PingS)*time.Second))
 	}
 	cliI, err := NewReconnectClient(d, opts...)
 	if err != nil {
@@ -524,6 +527,7 @@ func c09Gen(rt *rapid.T) c09Case {
 		Will:      rapid.Bool().Draw(rt, "will"),
 		User:      rapid.Bool().Draw(rt, "user"),
 		IDKind:    rapid.SampledFrom([]int{0, 0, 1, 2, 3}).Draw(rt, "idKind"),
+		PingS:     rapid.SampledFrom([]int{0, 0, 2, 100}).Draw(rt, "pingS"),
 	}
 	c.MaxUs = c.BaseUs * rapid.SampledFrom([]int{1, 2, 4, 8}).Draw(rt, "maxMul")
 	if rapid.IntRange(0, 9).Draw(rt, "maxBelowBase") == 0 {
